@@ -38,11 +38,14 @@ def file? : Sexp → Option File
     pure { path := path, src := src, mtime := mt }
   | _ => none
 
-def app? : Sexp → Option (String × Nat)
+def app? : Sexp → Option (String × Option Nat)
+  | .list [a, .atom "none"] => do
+    let n ← a.str?
+    pure (n, none)
   | .list [a, c] => do
     let n ← a.str?
     let k ← c.nat?
-    pure (n, k)
+    pure (n, some k)
   | _ => none
 
 def only? : Sexp → Option Only
